@@ -17,6 +17,7 @@ func init() {
 			c11Roles(r)
 			c11Local(r)
 			c11StayPaused(r)
+			c04Receiver(r)
 		})
 }
 
